@@ -79,7 +79,12 @@ class Loop(Edit):
         o_pos, c_pos = src.toks[ob][1], src.toks[cb][1]
         inserts = [(o_pos, "\n" + self.inv + "\n")]
         if self.step:
-            inserts.append((c_pos, "\n" + self.step + "\n"))
+            # a loop body's tail expression has type (): terminate it so the ghost step can follow
+            prev = max((k for k in src.code if src.toks[k][1] < c_pos), default=None)
+            sep = ""
+            if prev is not None and text[src.toks[prev][1]:src.toks[prev][2]] not in (";", "}", "{"):
+                sep = ";"
+            inserts.append((c_pos, sep + "\n" + self.step + "\n"))
             # continues belonging to this loop: inside body, not inside a nested loop or closure
             nested = []
             code = src.code
@@ -247,10 +252,10 @@ class Fn:
         for e in self.sig_edits:
             sig = e.apply(sig, ctx + " (signature)")
         sig = name_return(sig, self.ret)
+        head = re.sub(r"\bpub\([a-z]+\)", "pub", head)
         vis = ""
         if not self.trait_of and "pub" not in head.split():
             vis = "pub "
-        head = re.sub(r"\bpub\([a-z]+\)", "pub", head)
         contract = self.contract.strip("\n")
         if self.mode == "stub":
             out = f"{self.attrs}#[verifier::external_body]\n{head}{vis}{sig.rstrip()}\n{contract}\n{{ unimplemented!() }}\n"
